@@ -20,6 +20,8 @@ func checkC17(c *Ctx, r *Report) {
 	r.Explanation = c17Explanation
 	r.Trusted = []string{"go/ssa translation", "ordering specification of RFC 5155 s.7.2.1/8.3 in checker/c17.go", "digest-type table from RFC 4034/4509/6605"}
 	c17R1(c, r)
+	rsaVerifyUnconditional(c, r, "C17.R1.rsa-verify-unconditional")
+	ecdsaKeyReaderRefusals(c, r, "C17.R5.ecdsa-key-reader-refusals")
 	c17R2(c, r)
 	borrow(c, r, func(c *Ctx, r *Report) { intToBytesRule(c, r, "C10.R2.int-to-bytes") }, "C10.R2.int-to-bytes", "C17.R5.int-to-bytes", 1, "intToBytes left-pads a short integer to exactly the requested width", nil, "a generated ECDSA key with a coordinate that has two leading zero octets gets a 63- or 95-octet public key field: its own exported text does not read back and its signatures do not verify")
 	c17R3(c, r)
